@@ -29,7 +29,7 @@ macro_rules! stubbed_long {
 }
 
 stubbed_long! {
-//@h name=c02_long_info tier=thorough mode=full prop=C02 also=C07,C13 timeout=1800 desc="Base-mode setup_receiver with an info string of ANY length 0..=66000 (symbolic length and contents): key, base nonce and exporter secret equal the RFC key schedule of the full string - nothing truncated, dropped or mis-sized at 255/256/65535/65536 - and no panic or overflow (all default checks on)" bounds="info length 0..=66000 symbolic, contents symbolic (sketch hash observes length, first bytes, last byte, far probes); all skR, enc; unwind 50"
+//@h name=c02_long_info tier=thorough mode=full slots=2 prop=C02 also=C07,C13 timeout=7200 desc="Base-mode setup_receiver with an info string of ANY length 0..=66000 (symbolic length and contents): key, base nonce and exporter secret equal the RFC key schedule of the full string - nothing truncated, dropped or mis-sized at 255/256/65535/65536 - and no panic or overflow (all default checks on)" bounds="info length 0..=66000 symbolic, contents symbolic (sketch hash observes length, first bytes, last byte, far probes); all skR, enc; unwind 50"
 #[kani::proof]
 #[kani::unwind(50)]
 pub fn c02_long_info() {
@@ -87,9 +87,9 @@ macro_rules! long_psk_harness {
         }
     };
 }
-//@h name=c02_long_psk tier=thorough mode=full prop=C02 also=C07,C13,C15 timeout=3600 desc="Psk-mode setup_receiver with a PSK of ANY length 1..=66000: key schedule equals the RFC's on the full string, no panic" bounds="psk length 1..=66000 symbolic, psk_id 1..=2 B; all skR, enc; unwind 50"
+//@h name=c02_long_psk tier=thorough mode=full slots=2 prop=C02 also=C07,C13,C15 timeout=9000 desc="Psk-mode setup_receiver with a PSK of ANY length 1..=66000: key schedule equals the RFC's on the full string, no panic" bounds="psk length 1..=66000 symbolic, psk_id 1..=2 B; all skR, enc; unwind 50"
 long_psk_harness!(c02_long_psk, true);
-//@h name=c02_long_psk_id tier=thorough mode=full prop=C02 also=C07,C13,C15 timeout=3600 desc="Psk-mode setup_receiver with a PSK identifier of ANY length 1..=66000: key schedule equals the RFC's on the full string, no panic" bounds="psk_id length 1..=66000 symbolic, psk 1..=2 B; all skR, enc; unwind 50"
+//@h name=c02_long_psk_id tier=thorough mode=full slots=2 prop=C02 also=C07,C13,C15 timeout=7200 desc="Psk-mode setup_receiver with a PSK identifier of ANY length 1..=66000: key schedule equals the RFC's on the full string, no panic" bounds="psk_id length 1..=66000 symbolic, psk 1..=2 B; all skR, enc; unwind 50"
 long_psk_harness!(c02_long_psk_id, false);
 
 static PATTERN: [u8; LONG] = [0xa7u8; LONG];
